@@ -203,10 +203,11 @@ impl BuildSystem {
         if config.should_force() {
             self.logger.verbose("Force flag set, regenerating bindings");
         } else {
-            match GenerationCache::needs_regeneration(
+            match GenerationCache::needs_regeneration_with_events(
                 &config.output_path,
                 &commands,
                 discovered_structs,
+                analyzer.get_discovered_events(),
                 config,
             ) {
                 // A matching cache is not enough: a generated file may have been deleted since
@@ -263,7 +264,8 @@ impl BuildSystem {
         }
 
         // Save cache after successful generation
-        let cache = GenerationCache::new(&commands, discovered_structs, config)?;
+        let cache = GenerationCache::new(&commands, discovered_structs, config)?
+            .with_events(analyzer.get_discovered_events())?;
         if let Err(e) = cache.save(&config.output_path) {
             self.logger
                 .warning(&format!("Failed to save generation cache: {}", e));
